@@ -5,6 +5,7 @@
 /*G*/            (ffin(self.lower) && ffin(self.upper) && ffin(rhs.lower) && ffin(rhs.upper) && !nan_iv(r)) ==>
 /*G*/                forall|x: f32, y: f32| mem(x, self) && mem(y, rhs) && !fnan(#[trigger] x.div_spec(y)) ==> mem(x.div_spec(y), r)
     {
+/*G*/        proof { ax_div(self.lower, rhs.lower); ax_div(self.lower, rhs.upper); ax_div(self.upper, rhs.lower); ax_div(self.upper, rhs.upper); }
 /*G*/        proof { ax_fin(self.lower, self.lower, self.lower); ax_fin(self.upper, self.upper, self.upper); ax_fin(rhs.lower, rhs.lower, rhs.lower); ax_fin(rhs.upper, rhs.upper, rhs.upper);
 /*G*/            ax_ops(rhs.lower, 0.0f32); ax_ops(rhs.upper, 0.0f32); ax_ops(0.0f32, rhs.lower); ax_ops(0.0f32, rhs.upper); }
         if self.has_nan() {
@@ -17,13 +18,11 @@
                 let i = self.lower;
                 {
                     let j = rhs.lower;
-/*G*/                    proof { ax_div(i, j); }
                     out[k] = i / j;
                     k += 1;
                 }
                 {
                     let j = rhs.upper;
-/*G*/                    proof { ax_div(i, j); }
                     out[k] = i / j;
                     k += 1;
                 }
@@ -32,13 +31,11 @@
                 let i = self.upper;
                 {
                     let j = rhs.lower;
-/*G*/                    proof { ax_div(i, j); }
                     out[k] = i / j;
                     k += 1;
                 }
                 {
                     let j = rhs.upper;
-/*G*/                    proof { ax_div(i, j); }
                     out[k] = i / j;
                     k += 1;
                 }
